@@ -355,7 +355,8 @@ def s_convert(draw, negative=False):
         timing.append(["WARPS", draw(G.warps())])
     if draw(st.sampled_from(range(6))) == 0:
         # a stop of length zero is not negative
-        timing[2][1] = (timing[2][1] + "," if timing[2][1] else "") + "9600.000=0.000"
+        # ... and neither is one of length minus zero ("-0.000" is a signed zero, not a value below zero)
+        timing[2][1] = (timing[2][1] + "," if timing[2][1] else "") + draw(st.sampled_from(["9600.000=0.000", "9600.000=-0.000", "9600.000=-0", "9600.000= -0.000"]))
     if negative:
         where = draw(st.sampled_from(["BPMS", "STOPS", "STOPS", "both"]))
         for idx, key in ((1, "BPMS"), (2, "STOPS")):
